@@ -33,7 +33,7 @@ ASSUMPTIONS = ['tasks are atomic (each writes its own window of the shared buffe
                'worker counts and how far the workers have got at each pool API call',
                'under an injected read fault the call may raise any exception or return exactly the fault-free data',
                'a single-row save loads back as a plain array (documented behaviour of ra.load)']
-REACH_EXPECTED = ['rows_longer_than_a_chunk', 'lazy_workers', 'eager_workers', 'worker_switch', 'multi_chunk_dispatch', 'frame_entries', 'per_file_args',
+REACH_EXPECTED = ['retry_after_fault', 'alloc_fault_run', 'rows_longer_than_a_chunk', 'lazy_workers', 'eager_workers', 'worker_switch', 'multi_chunk_dispatch', 'frame_entries', 'per_file_args',
                   'lengths_hint', 'generator_input', 'read_fault_run', 'rows_cross_padding_10', 'rows_cross_padding_100',
                   'strided_load', 'key_subset_load', 'rect_array_roundtrip', 'concatenate_trjs_run', 'mixed_topologies', 'striped_loader_run']
 FORMATS = ('xtc', 'h5', 'nc')      # not trr: mdtraj's TRR reader corrupts the heap with atom_indices
@@ -124,6 +124,11 @@ def fam_load_concat(ctx):
         victim = t.draw(n_files)
         faults = {os.path.basename(files[victim]): t.choice(('oserror', 'short'))}
         ctx.hit('read_fault_run')
+    alloc_fault = None
+    if faults is None and t.flag(1, 12):
+        alloc_fault = t.choice(('enospc', 'enomem'))
+        faults = {'<shared array>': alloc_fault}
+        ctx.hit('alloc_fault_run')
     ctx.scenario.update(family='load_as_concatenated', format=ext, files=n_files, lengths=exp_len, atoms=n_atoms,
                         selection=None if sel is None else sel.tolist(), style=('kwargs', 'args', 'args+frame')[style],
                         stride=gstride if style == 0 else [kw.get('stride') for kw in per_file],
@@ -144,7 +149,7 @@ def fam_load_concat(ctx):
     arg_files = (f for f in list(files)) if gen_input else list(files)
     if gen_input:
         ctx.hit('generator_input')
-    with simpool.installed(ctx, read_faults=faults) as sim:
+    with simpool.installed(ctx, read_faults=None if alloc_fault else faults, alloc_fault=alloc_fault) as sim:
         if faults:
             exc = None
             try:
@@ -156,10 +161,19 @@ def fam_load_concat(ctx):
             if exc is not None:
                 ctx.count('fault_runs_raised')
                 note_pool(ctx, sim)
-                return
-            ctx.count('fault_runs_returned')
+                retry = True
+            else:
+                retry = False
+                ctx.count('fault_runs_returned')
         else:
+            retry = False
             lengths, xyz = ctx.sut(L.load_as_concatenated, arg_files, **kwargs)
+    if retry:
+        # the fault is gone (the file is readable again, space was freed): the same call in the same process must now
+        # succeed with the right data - a failed load may not leave anything behind that a later one trips over
+        with simpool.installed(ctx) as sim:
+            lengths, xyz = ctx.sut(L.load_as_concatenated, list(files), **kwargs)
+        ctx.hit('retry_after_fault')
     note_pool(ctx, sim)
     want = np.concatenate(expected)
     require(list(map(int, lengths)) == exp_len, 'wrong_lengths', lambda: 'lengths %s, individually loaded files have %s' %
